@@ -144,7 +144,7 @@ def move_staticmethod_static_scope(source: str, preserve: Collection[str]) -> st
         for funcdef in parsing.iter_funcdefs(classdef):
             if funcdef.name in attributes_to_preserve:
                 continue
-            if f"{classdef.name}.{funcdef.name}" in preserve:
+            if f"{classdef.name}.{funcdef.name}" in preserve or funcdef.name in preserve:
                 continue
             if parsing.is_magic_method(funcdef):
                 continue
